@@ -193,7 +193,8 @@ def schema_falsy_cases() -> List[Tuple[str, Dict, Dict]]:
                     return cfg
                 both(f"sw:{t}:{k}={_tag(v)}", make, {"thing": "software", "type": t, "option": k, "value": _tag(v)})
     # nodes: the keys of the node schemas that the model reads
-    NODE_KEYS = ("start_up_duration", "shut_down_duration", "node_scan_duration", "operating_state", "num_ports")
+    NODE_KEYS = ("start_up_duration", "shut_down_duration", "node_scan_duration", "operating_state", "num_ports",
+                 "revealed_to_red", "start_up_countdown", "shut_down_countdown", "is_resetting")
     for t in ("computer", "server", "printer", "switch", "router", "firewall"):
         schema = Node._registry[t].ConfigSchema
         for k in NODE_KEYS:
@@ -268,6 +269,34 @@ def schema_falsy_cases() -> List[Tuple[str, Dict, Dict]]:
     both("game:seed=0", game_with({"seed": 0}), {"thing": "game", "option": "seed"})
     both("game:max_episode_length=0", game_with({"max_episode_length": 0}), {"thing": "game", "option": "max_episode_length"})
     both("game:ports=[]", game_with({"ports": [], "protocols": []}), {"thing": "game", "option": "ports"})
+    return out
+
+
+def node_state_cases() -> List[Tuple[str, Dict, Dict]]:
+    """Every modelled node type declared in a transitional state with its countdown, revealed to red, resetting: keys the node schema
+    declares and that `build = declared` now carries (NodeFlags)."""
+    out = []
+    variants = [("revealed", {"revealed_to_red": True}), ("booting-2", {"operating_state": "BOOTING", "start_up_countdown": 2, "start_up_duration": 5}),
+                ("shutting-down-2", {"operating_state": "SHUTTING_DOWN", "shut_down_countdown": 2}),
+                ("off-resetting", {"operating_state": "OFF", "is_resetting": True}), ("on-countdown-1", {"start_up_countdown": 1, "revealed_to_red": "true"}),
+                ("booting-quoted", {"operating_state": "BOOTING", "start_up_countdown": "3"})]
+    for t in ("computer", "server", "printer", "switch", "router", "firewall", "wireless-router"):
+        for vn, extra in variants:
+            cfg = _base()
+            n: Dict[str, Any] = _host(kind=t) if t in ("computer", "server", "printer") else {"hostname": "n1", "type": t}
+            if t == "firewall":
+                n["ports"] = {"external_port": {"ip_address": "10.0.7.1", "subnet_mask": "255.255.255.252"},
+                              "internal_port": {"ip_address": "10.9.0.254", "subnet_mask": "255.255.255.0"}}
+            if t == "router":
+                n.update({"num_ports": 2, "ports": {1: {"ip_address": "10.9.0.1", "subnet_mask": "255.255.255.0"}}})
+            if t == "wireless-router":
+                n.update({"router_interface": {"ip_address": "10.9.0.1", "subnet_mask": "255.255.255.0"},
+                          "wireless_access_point": {"ip_address": "10.9.1.1", "subnet_mask": "255.255.255.0", "frequency": "WIFI_2_4"}})
+            if t in ("computer", "server"):
+                n["services"] = [{"type": "dns-server"}]
+            n.update(copy.deepcopy(extra))
+            cfg["simulation"]["network"]["nodes"].append(n)
+            out.append((f"falsy:node-state:{t}:{vn}", cfg, {"thing": "node-state", "type": t, "option": vn}))
     return out
 
 
